@@ -53,6 +53,11 @@ def write_files(case, wd):
         if isinstance(content, dict) and content.get("h5"):
             arr = np.asarray(gen.rng(content["seed"]).random(content["shape"]), np.float32) if content["shape"] and all(content["shape"]) else np.zeros(content["shape"], np.float32)
             cli.mkds(p, content.get("ds", "/PhaseSpace/data"), arr)
+            if content.get("trunc") is not None:
+                # a results file cut short (disk full, copy interrupted): the first trunc*size bytes only
+                sz = os.path.getsize(p)
+                with open(p, "r+b") as f:
+                    f.truncate(max(0, int(sz * content["trunc"])))
         elif isinstance(content, dict) and content.get("imp"):
             rows, N = content["rows"], content["rows"]
             r = gen.rng(content["seed"])
@@ -230,7 +235,7 @@ def cases(draw, tiny=False):
         o["tracking"] = "t.txt"
         classes.append("track_" + kind)
     if "startdist" in stress:
-        kind = draw(st.sampled_from(["txt", "txt", "h5size", "h5rank", "h5zero", "h5step", "unknown"]))
+        kind = draw(st.sampled_from(["txt", "txt", "h5size", "h5rank", "h5zero", "h5step", "unknown", "h5trunc", "h5garbage", "h5otherds"]))
         o["BunchCurrent"] = [1e-3]
         if kind == "txt":
             files["s.txt"] = draw(token_text(2, maxlines=60))
@@ -242,6 +247,15 @@ def cases(draw, tiny=False):
         elif kind == "h5rank":
             shape = draw(st.sampled_from([[n, n], [2, n, n], [1, 1, n, n], [1, 1, 1, n, n], [n], [1, 2, n, n], [1, n, n + 1]]))
             files["s.h5"] = dict(h5=True, shape=shape, seed=draw(gen.seeds()))
+            o["InitialDistFile"] = "s.h5"
+        elif kind == "h5trunc":
+            files["s.h5"] = dict(h5=True, shape=[2, 1, n, n], seed=draw(gen.seeds()), trunc=draw(st.sampled_from([0.0, 0.1, 0.5, 0.9, 0.99])))
+            o["InitialDistFile"] = "s.h5"
+        elif kind == "h5garbage":
+            files["s.h5"] = bytes(draw(st.binary(min_size=0, max_size=300))).decode("latin-1")
+            o["InitialDistFile"] = "s.h5"
+        elif kind == "h5otherds":
+            files["s.h5"] = dict(h5=True, shape=[1, 1, n, n], seed=draw(gen.seeds()), ds=draw(st.sampled_from(["/PhaseSpace/other", "/data", "/BunchProfile/data"])))
             o["InitialDistFile"] = "s.h5"
         elif kind == "h5zero":
             files["s.h5"] = dict(h5=True, shape=[0, 1, n, n], seed=0)
@@ -465,5 +479,5 @@ def subs(tier):
             Sub("fuzz", st.just({}), run_fuzz, quick=1, thorough=1, needs=("fuzz",), enum=fuzz_enum,
                 max_wall={"quick": 400, "thorough": 3000}),
             Sub("sanitizer", cases(), run_case, quick=400, thorough=12000, needs=("san", "h5x"), shrink_budget=60),
-            Sub("valgrind", cases(tiny=True), run_valgrind, quick=24, thorough=400, needs=("rel", "h5x"), shrink_budget=6,
+            Sub("valgrind", cases(tiny=True), run_valgrind, quick=64, thorough=800, needs=("rel", "h5x"), shrink_budget=6,
                 max_wall={"quick": 500, "thorough": 3000})]
